@@ -110,10 +110,9 @@ Definition Inv (rm : Z) (w : writer) : Prop := if alive w then WInv rm w else Of
 Definition ack_id (a : ack) : N := match a with APuback i | APubcomp i => i | APubrec i _ => i end.
 Definition ev_ok (w : writer) (e : ev) : bool :=
   match e with
-  (* an acknowledgement of something that is not outstanding is admitted as well, except a PUBREC that ACCEPTS an
-     unknown identifier (the code answers it with PUBREL without looking): duplicates and bogus PUBACK / PUBCOMP /
-     refusing PUBREC free nothing *)
-  | EAck v5 a => negb (alive w) || in_out (ack_id a) (pubout w) || match a with APubrec _ err => v5 && err | _ => true end
+  (* every acknowledgement is admitted, also one of something that is not outstanding (duplicates, bogus
+     identifiers): it frees nothing and starts nothing *)
+  | EAck v5 a => true
   | EOpen rm => alive w || (Z.of_nat (length (p_unack w)) <=? rm)%Z
   | _ => true
   end.
@@ -166,7 +165,7 @@ Lemma on_ack_alive v5 w a : alive (on_ack v5 w a) = alive w.
 Proof.
   destruct a as [id|id err|id]; cbn [on_ack].
   - destruct (in_out id (pubout w)); reflexivity.
-  - destruct (v5 && err); [destruct (in_out id (pubout w))|]; reflexivity.
+  - destruct (in_out id (pubout w)); [destruct (v5 && err)|]; reflexivity.
   - destruct (in_out id (pubout w)); reflexivity.
 Qed.
 
@@ -174,13 +173,12 @@ Lemma ack_inv rm v5 w a :
   Inv rm w -> ev_ok w (EAck v5 a) = true -> Inv rm (if alive w then on_ack v5 w a else w).
 Proof.
   unfold Inv. destruct (alive w) eqn:Ea; [|intros H _; rewrite Ea; exact H].
-  intros HI Hok0. cbn [ev_ok] in Hok0. rewrite Ea in Hok0. cbn [negb orb] in Hok0.
+  intros HI _.
   destruct (in_out (ack_id a) (pubout w)) eqn:Hok.
   2: { (* nothing outstanding under that identifier: nothing changes *)
-       cbn [orb] in Hok0. rewrite on_ack_alive, Ea.
-       destruct a as [id|id err|id]; cbn [on_ack ack_id] in *; rewrite ?Hok; try exact HI.
-       rewrite Hok0. exact HI. }
-  clear Hok0. destruct HI as [H1 H2 H3 H4 H5 H6 H7 H8].
+       rewrite on_ack_alive, Ea.
+       destruct a as [id|id err|id]; cbn [on_ack ack_id] in *; rewrite ?Hok; exact HI. }
+  destruct HI as [H1 H2 H3 H4 H5 H6 H7 H8].
   assert (In (ack_id a) (keys (pubout w))) as Hk by (apply in_out_In; exact Hok).
   assert (In (ack_id a) (inuse (fl w))) as Hu by (apply H6; unfold ids; apply in_or_app; left; exact Hk).
   (* the two shapes: identifier released / PUBREL queued *)
@@ -215,8 +213,8 @@ Proof.
   cbv beta iota. rewrite on_ack_alive, Ea.
   destruct a as [id|id err|id]; cbn [on_ack ack_id] in *.
   - rewrite Hok. apply Hrel; cbn [wr_set alive fl pubout qrel p_unack]; auto.
-  - destruct (v5 && err).
-    + rewrite Hok. apply Hrel; cbn [wr_set alive fl pubout qrel p_unack]; auto.
+  - rewrite Hok. destruct (v5 && err).
+    + apply Hrel; cbn [wr_set alive fl pubout qrel p_unack]; auto.
     + constructor; cbn [wr_set fl pubout qrel p_unack]; try assumption.
       * unfold ids. cbn [wr_set pubout qrel]. rewrite del_out_keys. unfold rids. rewrite map_app. cbn [map mk_pubrel pid].
         unfold ids in H5. fold (rids (qrel w)).
